@@ -32,7 +32,107 @@ func rulesC08(c *Ctx) {
 	ladderC08(c, p.SSAFunc(fdur), parseTable)
 	formatEvalC08(c, p.SSAFunc(fdur))
 	overflowC08(c, p.SSAFunc(pd))
+	digitsC08(c, p.SSAFunc(pd))
+	pureC08(c)
 	slotsC08(c)
+}
+
+// digitsC08: the numeric part of a component is read as a decimal 64-bit integer.
+func digitsC08(c *Ctx, f *ssa.Function) {
+	c.Rule("C08.digits", "ParseDuration converts the digits of each component with strconv.ParseInt in base 10 and 64 bits (the digits it collects are decimal digits; another or an auto-detected base reads 010m as 8m)")
+	n := 0
+	for _, b := range f.Blocks {
+		for _, in := range b.Instrs {
+			call, ok := in.(*ssa.Call)
+			if !ok || call.Call.StaticCallee() == nil {
+				continue
+			}
+			switch call.Call.StaticCallee().String() {
+			case "strconv.ParseInt":
+				n++
+				base, okB := call.Call.Args[1].(*ssa.Const)
+				bits, okS := call.Call.Args[2].(*ssa.Const)
+				key := fmt.Sprintf("ParseDuration: ParseInt #%d", n)
+				switch {
+				case !okB || !okS || base.Value == nil || bits.Value == nil:
+					c.Unk("C08.digits", key, call.Pos(), "base or size is not a constant")
+				case base.Value.String() != "10":
+					c.Bad("C08.digits", key, call.Pos(), "base "+base.Value.String()+": a component with a leading zero is read in another base or rejected")
+				case bits.Value.String() != "64":
+					c.Bad("C08.digits", key, call.Pos(), "size "+bits.Value.String()+": components above that size are rejected though their total fits")
+				default:
+					c.OK("C08.digits", key, call.Pos(), "base 10, 64 bits")
+				}
+			case "strconv.Atoi", "strconv.ParseUint", "strconv.ParseFloat":
+				n++
+				c.Unk("C08.digits", fmt.Sprintf("ParseDuration: %s #%d", call.Call.StaticCallee().Name(), n), call.Pos(), "digits converted by a function this rule has no exactness argument for")
+			}
+		}
+	}
+	c.Floor("C08.digits", n, 1)
+}
+
+// pureC08: the result depends on the argument only.
+func pureC08(c *Ctx) {
+	p := c.P
+	c.Rule("C08.pure", "ParseDuration and FormatDuration (and the in-package functions they call) read no package-level variable other than error values that nothing outside init assigns: the same spelling always yields the same duration, whatever was parsed before")
+	for _, name := range []string{"ParseDuration", "FormatDuration"} {
+		root := p.SSAFunc(p.Func(name))
+		if root == nil {
+			continue
+		}
+		seen := map[*ssa.Function]bool{}
+		globals := map[*ssa.Global]token.Pos{}
+		var visit func(f *ssa.Function)
+		visit = func(f *ssa.Function) {
+			if seen[f] || f.Pkg != p.SPkg {
+				return
+			}
+			seen[f] = true
+			for _, b := range f.Blocks {
+				for _, in := range b.Instrs {
+					for _, op := range in.Operands(nil) {
+						if g, ok := (*op).(*ssa.Global); ok && g.Pkg == p.SPkg {
+							if _, has := globals[g]; !has {
+								globals[g] = in.Pos()
+							}
+						}
+					}
+					if call, ok := in.(*ssa.Call); ok {
+						if cal := call.Call.StaticCallee(); cal != nil {
+							visit(cal)
+						}
+					}
+				}
+			}
+		}
+		visit(root)
+		for g, pos := range globals {
+			key := name + ": reads " + g.Name()
+			errT := types.Universe.Lookup("error").Type()
+			if types.Identical(g.Type().(*types.Pointer).Elem(), errT) && !assignedOutsideInit(p, g) {
+				c.OK("C08.pure", key, pos, "an error value assigned only at initialisation")
+			} else {
+				c.Bad("C08.pure", key, pos, "package-level state on the way from spelling to duration: the result can depend on what was parsed before")
+			}
+		}
+		c.OK("C08.pure", name+": package-level variables examined", root.Pos(), fmt.Sprintf("%d functions, %d variables", len(seen), len(globals)))
+	}
+}
+
+func assignedOutsideInit(p *Program, g *ssa.Global) bool {
+	for _, fn := range p.SrcFuncs() {
+		for _, f := range append([]*ssa.Function{fn}, fn.AnonFuncs...) {
+			for _, b := range f.Blocks {
+				for _, in := range b.Instrs {
+					if st, ok := in.(*ssa.Store); ok && st.Addr == ssa.Value(g) {
+						return true
+					}
+				}
+			}
+		}
+	}
+	return false
 }
 
 // runeLoads finds the switch tag (a rune load compared with >= 5 constants)
@@ -427,6 +527,8 @@ func overflowC08(c *Ctx, f *ssa.Function) {
 			}
 			key := "ParseDuration: total + number*multiplier"
 			found := ""
+			var foundIf *ssa.If
+			errOnTrue := false
 			for _, b2 := range f.Blocks {
 				ifi, ok := b2.Instrs[len(b2.Instrs)-1].(*ssa.If)
 				if !ok {
@@ -441,6 +543,7 @@ func overflowC08(c *Ctx, f *ssa.Function) {
 						if r, ok := s.Instrs[len(s.Instrs)-1].(*ssa.Return); ok && len(r.Results) == 2 {
 							if k, isC := r.Results[1].(*ssa.Const); !isC || !k.IsNil() {
 								found = p.Pos(ifi.Pos())
+								foundIf, errOnTrue = ifi, s == b2.Succs[0]
 							}
 						}
 					}
@@ -455,6 +558,7 @@ func overflowC08(c *Ctx, f *ssa.Function) {
 				c.Bad("C08.overflow", key, add.Pos(), "no test on an error-returning branch depends on number, multiplier and running total: overflow wraps silently")
 			default:
 				c.OK("C08.overflow", key, add.Pos(), "guarded by the test at "+found+" which involves number, multiplier and total")
+				exactGuardC08(c, foundIf, errOnTrue, num, mult, acc)
 			}
 		}
 	}
@@ -594,4 +698,65 @@ func formatEvalC08(c *Ctx, f *ssa.Function) {
 		c.Unk("C08.formateval", "FormatDuration: samples not evaluated", f.Pos(), fmt.Sprintf("%d of %d sample durations could not be evaluated by constant propagation (the formatter has a shape it cannot follow)", undecided, len(samples)))
 	}
 	_ = n
+}
+
+// exactGuardC08: total + n*mult fits iff n <= floor((Max-total)/mult); a guard
+// written as a comparison of n with that quotient must reject exactly the
+// complement — `>=` also rejects the largest representable component.
+func exactGuardC08(c *Ctx, ifi *ssa.If, errOnTrue bool, num, mult, acc ssa.Value) {
+	key := "ParseDuration: overflow test rejects only what does not fit"
+	bo, ok := ifi.Cond.(*ssa.BinOp)
+	if !ok {
+		c.Unk("C08.overflow", key, ifi.Pos(), "the test is not a single comparison")
+		return
+	}
+	strip := func(v ssa.Value) ssa.Value {
+		for {
+			switch x := v.(type) {
+			case *ssa.Convert:
+				v = x.X
+			case *ssa.ChangeType:
+				v = x.X
+			default:
+				return v
+			}
+		}
+	}
+	isQuot := func(v ssa.Value) bool {
+		q, ok := strip(v).(*ssa.BinOp)
+		if !ok || q.Op != token.QUO || strip(q.Y) != strip(mult) {
+			return false
+		}
+		sub, ok := strip(q.X).(*ssa.BinOp)
+		if !ok || sub.Op != token.SUB || strip(sub.Y) != strip(acc) {
+			return false
+		}
+		k, ok := strip(sub.X).(*ssa.Const)
+		return ok && k.Value != nil && k.Value.String() == "9223372036854775807"
+	}
+	op := bo.Op
+	var lhsNum bool
+	switch {
+	case strip(bo.X) == strip(num) && isQuot(bo.Y):
+		lhsNum = true
+	case strip(bo.Y) == strip(num) && isQuot(bo.X):
+		lhsNum = false
+	default:
+		c.Unk("C08.overflow", key, ifi.Pos(), "the test is not `number <cmp> (MaxInt64 - total) / multiplier`")
+		return
+	}
+	if !lhsNum { // mirror to number <op> quotient
+		op = map[token.Token]token.Token{token.GTR: token.LSS, token.LSS: token.GTR, token.GEQ: token.LEQ, token.LEQ: token.GEQ}[op]
+	}
+	if !errOnTrue { // negate
+		op = map[token.Token]token.Token{token.GTR: token.LEQ, token.LEQ: token.GTR, token.GEQ: token.LSS, token.LSS: token.GEQ}[op]
+	}
+	switch op {
+	case token.GTR:
+		c.OK("C08.overflow", key, bo.Pos(), "error exactly when number > (MaxInt64 - total) / multiplier")
+	case token.GEQ:
+		c.Bad("C08.overflow", key, bo.Pos(), "error already when number == (MaxInt64 - total) / multiplier: the largest component that still fits (2562047h, 9223372036s, ...) is rejected")
+	default:
+		c.Bad("C08.overflow", key, bo.Pos(), "the comparison does not reject components above (MaxInt64 - total) / multiplier")
+	}
 }
